@@ -40,6 +40,11 @@ def generate_all():
         vfs_src.generate(REPO, COQ, write_if_changed)
     except Exception as ex:
         errs.append('vfs_src: %s' % ex)
+    try:
+        import async_transport
+        async_transport.generate(REPO)
+    except Exception as ex:
+        errs.append('async_transport: %s' % ex)
     return errs
 
 if __name__ == '__main__':
